@@ -12,7 +12,7 @@ Record abi := mk_abi {
   sz_code : N;      (* size_of::<PrefixCode>() = 8 *)
   sz_vec : N        (* size_of::<Vec<_>>() = 24 *)
 }.
-Definition abi64 : abi := mk_abi 144 96 80 32 8 24.
+Definition abi64 : abi := mk_abi 144 88 80 32 8 24.
 
 Definition sum_lens {A} (ls : list (list A)) : N := sumN (map len ls).
 
@@ -65,7 +65,9 @@ Definition hq_space (t : hqwt) (pfs : option (list pfsupport)) : N :=
   match pfs with Some ps => sumN (map pfs_space ps) | None => 0 end.
 Definition wt_space (compressed : bool) (t : bwt) : N :=
   8 + 8 +
-  (if compressed then 256 * 8 + match w_decode t with Some d => sumN (map (fun v => len v * 5) d) | None => 0 end else 0) +
+  (* codes_decode is an Option<Vec<..>> here: `.iter()` yields the outer vector once, so the
+     code counts 5 bytes per decode TABLE (max_len + 1 of them), not per entry *)
+  (if compressed then 256 * 8 + match w_decode t with Some d => len d * 5 | None => 0 end else 0) +
   len (w_lens t) * 8 + sumN (map rsw_space (w_bvs t)).
 
 (* number of separately allocated components (each contributes a constant to the difference
